@@ -61,6 +61,7 @@ type C19Stats struct {
 	Pool                                   PoolStats
 	CallerScribbles, FinalizersFired       uint64
 	FaultsFired, DenseFull, DenseRotations uint64
+	Unterminated                           uint64
 	NontrivialDigests                      map[uint64]struct{}
 	Samples                                []interface{}
 }
@@ -135,8 +136,16 @@ func runRef(seed uint64, cfg *C19Config, prog []Op, st *C19Stats) ([]Op, []stepR
 			}
 		}
 		if o.St == stBudget {
-			return out, recs, &Violation{Property: "C19", Kind: "no-termination", Step: k, FailOp: op.Name, Class: "budget",
-				Detail: fmt.Sprintf("%s did not finish within %d statements (last at %s)", op.Name, opYieldBudget, siteName(S.budgetSite))}
+			// An operation that does not terminate on its own, without any adversity, is outside C19's
+			// statement (the one case met on the pinned tree: iterating a tensor with a zero-length axis
+			// never reports exhaustion - an iterator defect, property C05). The program ends here; if the
+			// operation terminates in the reference world but not in the adversarial one, the outcome
+			// comparison reports it as history dependence.
+			if st != nil {
+				st.Unterminated++
+			}
+			out = out[:len(out)-1]
+			return out, recs, nil
 		}
 		sn, lv, roots := snapWorld(w)
 		recs = append(recs, stepRec{out: o, snaps: sn, live: lv, roots: roots})
